@@ -7,6 +7,9 @@ Flags (Gen.Consts, regenerated from VERIF_REPO, asked from the model through c06
 nt_fixed_tok, nt_fixed_dlt, nt_tok_end_at_hash, nt_uri_unclosed_to_eol.  With nt_tok_end_at_hash
 no root cause is excused any more: every valid line of the stream must be read right.  With
 nt_uri_unclosed_to_eol no real call may run into the alarm, whatever the line holds.
+nt_skips_comment_lines (finding C06-F9 until it holds): documents are lists of statement lines,
+comment lines and blank lines (Spec.NtSyntax.dline), read from a raw string and from a file; the
+oracle is the list of the statements' triples, zero error lines (C06_document_lines).
 Correspondence: bounded-exhaustive, Model.NtReader vs shexer's NtTriplesYielder on
 every line rendered from (lexical form over the adversarial alphabet) x suffix
 forms x separator layouts x blank/no blank before the dot x comment variants x
@@ -436,7 +439,9 @@ RC_IDS = list(RC_IDS_UNREPAIRED)
 # the two switches of notes/proposed_fixes/C06-comment-glued-to-dot.diff, as Consts.v was generated:
 # hash = a token also ends at '#' (nothing is left of C06-F7r: C06_dom_cur is everything, Props/C06.v: C06);
 # eol  = a '<' without '>' reaches the end of the line (no text makes the reader hang: C06_terminates)
-FLAGS = {"hash": False, "eol": False}
+# skip = yield_triples skips blank lines and comment lines (notes/proposed_fixes/C06-comments-and-blank-lines.diff,
+#        finding C06-F9; Props/C06.v: C06_document_lines)
+FLAGS = {"hash": False, "eol": False, "skip": False}
 
 
 def set_shape():
@@ -446,8 +451,10 @@ def set_shape():
     RC_IDS[:] = RC_IDS_REPAIRED if fixed else RC_IDS_UNREPAIRED
     FLAGS["hash"] = len(info) > 2 and info[2] == "1"
     FLAGS["eol"] = len(info) > 3 and info[3] == "1"
+    FLAGS["skip"] = len(info) > 4 and info[4] == "1"
     parts = (["tokeniser"] if fixed else []) + (["typing"] if (fixed and len(info) > 1 and info[1] == "1") else []) + \
-        (["token-ends-at-hash"] if FLAGS["hash"] else []) + (["unclosed-corner-to-eol"] if FLAGS["eol"] else [])
+        (["token-ends-at-hash"] if FLAGS["hash"] else []) + (["unclosed-corner-to-eol"] if FLAGS["eol"] else []) + \
+        (["skips-comment-and-blank-lines"] if FLAGS["skip"] else [])
     return "+".join(parts)
 
 
@@ -589,24 +596,69 @@ def pool_run(fn, args):
 
 
 # ---- documents (several statements, both line readers)
+# comment lines (blanks before '#', text after it) and blank lines of the generated documents
+COMMENT_LINES = [("", " just a comment"), ("", ""), ("  ", " after blanks"), ("\t", "x"),
+                 ("", ' <http://e/b> <http://e/commented> "B" .'), ("", "<http://e/b> <http://e/c> <http://e/d> ."),
+                 (" ", " _:a <http://e/p> _:b ."), ("", " <a> <b> <c>"), ("", ' "x" "y" "z"'), ("", " 1 2 3"),
+                 ("", ' <http://e/s> <http://e/p> "v"@en . # twice'), ("", "é ## \\ @ ^^"), (" \t", "#")]
+BLANK_LINES = ["", "", " ", "\t", "  \t "]
+F9 = "C06-F9"
+
+
+def random_document(rnd):
+    """a list of lines: ("S", case) | ("C", blanks, text) | ("B", blanks); half of the documents hold statements only"""
+    cs = [random_case(rnd) if rnd.random() < 0.5 else
+          Case("I", "http://e/s%d" % j, PRED, *rnd.choice(SUFFIXES), items_of([rnd.choice(["a", "7", "_", "#"])
+                                                                              for _ in range(rnd.randint(0, 4))]),
+               " ", " ", rnd.choice(PREDOTS), rnd.choice(COMMENTS3[:2])) for j in range(rnd.randint(0, 6))]
+    dl = [("S", c) for c in cs]
+    if rnd.random() < 0.5:
+        for _ in range(rnd.randint(1, 4)):
+            pos = rnd.randint(0, len(dl))
+            if rnd.random() < 0.65:
+                w, txt = rnd.choice(COMMENT_LINES)
+                if rnd.random() < 0.25 and cs:
+                    txt = rnd.choice(["", " "]) + render_line(rnd.choice(cs))      # a commented-out statement
+                dl.insert(pos, ("C", w, txt))
+            else:
+                dl.insert(pos, ("B", rnd.choice(BLANK_LINES)))
+    if rnd.random() < 0.5:
+        dl.append(("B", ""))            # the document ends with a line end
+    return dl
+
+
+def render_dline(x):
+    return render_line(x[1]) if x[0] == "S" else (x[1] + "#" + x[2] if x[0] == "C" else x[1])
+
+
 def doc_checks(rnd, n_docs, known):
-    """random multi-line documents through raw_graph and source_file; model c06_doc vs implementation; oracle on
-    documents made only of in-domain lines"""
-    res = {"docs": 0, "corr_fail": [], "spec_fail": [], "all_in_dom_docs": 0, "hang": []}
+    """random multi-line documents -- statements, comment lines, blank lines -- through raw_graph and source_file;
+    model c06_doc vs implementation; oracle (the statements' triples in order, zero error lines) on the documents
+    whose statement lines are all in C06_dom: inside the document domain (Spec.NtDomCur.dline_dom_cur /
+    dline_dom_file_cur) the reader must be right; outside it the only root cause is C06-F9"""
+    res = {"docs": 0, "corr_fail": [], "spec_fail": [], "all_in_dom_docs": 0, "hang": [], "with_comment_lines": 0,
+           "with_blank_lines": 0, "outside_dom": 0, "outside_dom_but_right": 0, "f9_hits": 0, "f9_example": None,
+           "no_rc": [], "render_fail": []}
     mb = _mb()
     d = os.path.join(core.WORK, "c06")
     os.makedirs(d, exist_ok=True)
     for k in range(n_docs):
-        cs = [random_case(rnd) if rnd.random() < 0.5 else
-              Case("I", "http://e/s%d" % j, PRED, *rnd.choice(SUFFIXES), items_of([rnd.choice(["a", "7", "_", "#"])
-                                                                                  for _ in range(rnd.randint(0, 4))]),
-                   " ", " ", rnd.choice(PREDOTS), rnd.choice(COMMENTS3[:2])) for j in range(rnd.randint(0, 6))]
+        dl = random_document(rnd)
+        cs = [x[1] for x in dl if x[0] == "S"]
+        others = [x for x in dl if x[0] != "S"]
         so = mb.call("c06_spec", [spec_row(c) for c in cs]) if cs else []
-        lines = [render_line(c) for c in cs]
-        blank = rnd.random() < 0.3
-        doc = "\n".join(lines) + ("\n" if rnd.random() < 0.5 else "")
-        if blank and lines:
-            doc = doc.replace("\n", "\n  \n", 1)
+        if others:
+            do = mb.call("c06_dline", [[x[0], x[1], x[2] if x[0] == "C" else ""] for x in others])
+            for x, r in zip(others, do):
+                want = [render_dline(x), "1", "1" if (FLAGS["skip"] or x[0] == "B") else "0", "1" if FLAGS["skip"] else "0"]
+                if list(r) != want:
+                    res["render_fail"].append((list(x), list(r), want))
+        has_c = any(x[0] == "C" for x in dl)
+        has_b = any(x[0] == "B" for x in dl)
+        res["with_comment_lines"] += has_c
+        res["with_blank_lines"] += has_b
+        doc = "\n".join(render_dline(x) for x in dl)
+        stmts_ok = all(r[1] == "1" and r[2] == "1" for r in so)
         for reader in ("raw", "file"):
             if reader == "file":
                 path = os.path.join(d, "doc_%d_%d.nt" % (os.getpid(), k))
@@ -614,8 +666,6 @@ def doc_checks(rnd, n_docs, known):
                     f.write(doc)
                 iobs = impl_file(path)
                 os.unlink(path)
-                if blank:
-                    pass
             else:
                 iobs = impl_doc(doc)
             mobs = parse_doc_row(mb.call("c06_doc", [["0", reader, doc]])[0])
@@ -624,12 +674,26 @@ def doc_checks(rnd, n_docs, known):
                 res["hang"].append((reader, doc, iobs, mobs))
             if list(iobs) != list(mobs):
                 res["corr_fail"].append((reader, doc, iobs, mobs))
-            if cs and all(r[1] == "1" and r[2] == "1" for r in so) and not (reader == "file" and blank):
+            if not stmts_ok:
+                continue
+            in_dom = FLAGS["skip"] or not (has_c or (reader == "file" and has_b))
+            want = [expected(c) for c in cs]
+            got = [kinded_of_obs(t) for t in iobs[2]]
+            right = iobs[0] == "D" and iobs[1] == 0 and got == want
+            if in_dom:
                 res["all_in_dom_docs"] += 1
-                want = [expected(c) for c in cs]
-                got = [kinded_of_obs(t) for t in iobs[2]]
-                if not (iobs[0] == "D" and iobs[1] == 0 and got == want):
+                if not right:
                     res["spec_fail"].append((reader, doc, iobs, want))
+            else:
+                res["outside_dom"] += 1
+                if right:
+                    res["outside_dom_but_right"] += 1
+                elif F9 in known:
+                    res["f9_hits"] += 1
+                    if res["f9_example"] is None:
+                        res["f9_example"] = (reader, doc, iobs, want)
+                else:
+                    res["no_rc"].append((reader, doc, iobs, want))
     return res
 
 
@@ -688,13 +752,30 @@ def run(tier, seed, replay=None):
         got = impl_doc(line)
         return got, (got[0] == "D" and got[1] == 0 and [kinded_of_obs(t) for t in got[2]] == [want])
 
+    def document_read_right(rp):
+        """a pinned DOCUMENT: {"document", "expected_kinded_list", "reader": raw|file}"""
+        if rp.get("reader") == "file":
+            dd = os.path.join(core.WORK, "c06")
+            os.makedirs(dd, exist_ok=True)
+            path = os.path.join(dd, "pinned_%d.nt" % os.getpid())
+            with open(path, "w", encoding="utf-8", newline="") as f:
+                f.write(rp["document"])
+            got = impl_file(path)
+            os.unlink(path)
+        else:
+            got = impl_doc(rp["document"])
+        return got, (got[0] == "D" and got[1] == 0 and [kinded_of_obs(t) for t in got[2]] == rp["expected_kinded_list"])
+
     # known findings: replay the pinned reproducers against the real code
     kf_parts = {}
     for fid in sorted(known):
         f = findings[fid]
         rp = f["reproducer"]
-        got, ok = read_right(rp["line"], rp["expected_kinded"])
-        if not ok:
+        got, ok = document_read_right(rp) if "document" in rp else read_right(rp["line"], rp["expected_kinded"])
+        if not ok and "document" in rp and f.get("reproducer_file"):
+            got2, ok2 = document_read_right(f["reproducer_file"])
+            kf_parts[fid] = ["%s -> raw string: %s; file: %s" % (f["what"][:200], json.dumps(got)[:220], json.dumps(got2)[:90])]
+        elif not ok:
             kf_parts[fid] = ["%s -> reader answers %s" % (f["what"][:160], json.dumps(got)[:160])]
         else:
             run.notes.append("finding %s no longer reproduces on its pinned line" % fid)
@@ -717,7 +798,7 @@ def run(tier, seed, replay=None):
     corpus_fail = []
     waiting = {}
     for c in corpus:
-        got, ok = read_right(c["line"], c["expected_kinded"])
+        got, ok = document_read_right(c) if "document" in c else read_right(c["line"], c["expected_kinded"])
         if ok:
             continue
         if c.get("finding") in known:
@@ -726,7 +807,8 @@ def run(tier, seed, replay=None):
         corpus_fail.append(c)
         run.violation("regression case of repaired finding %s is not read right%s"
                       % (c.get("finding"), " (the reader never returns)" if got[0] == "H" else ""),
-                      {"line": c["line"], "impl": got, "expected_kinded": c["expected_kinded"], "corpus": c["file"]})
+                      {"line": c.get("line", c.get("document")), "impl": got,
+                       "expected_kinded": c.get("expected_kinded", c.get("expected_kinded_list")), "corpus": c["file"]})
     for fid, files in waiting.items():
         kf_parts.setdefault(fid, []).append("regression case(s) %s wait for the repair" % ", ".join(files))
     for fid in sorted(kf_parts):
@@ -746,6 +828,9 @@ def run(tier, seed, replay=None):
         run.notes.append("nt_tok_end_at_hash: C06_dom_cur is everything, no root cause is excused (Props/C06.v: C06)")
     if FLAGS["eol"]:
         run.notes.append("nt_uri_unclosed_to_eol: no real call may run into the alarm (Props/C06.v: C06_terminates)")
+    if FLAGS["skip"]:
+        run.notes.append("nt_skips_comment_lines: every valid document, comment lines and blank lines included, raw "
+                         "string or file, must be read right (Props/C06.v: C06_document_lines)")
     t_start = time.time()
     docs = None
     garbage = None
@@ -820,7 +905,18 @@ def run(tier, seed, replay=None):
     if docs:
         for (reader, doc, iobs, want) in docs["spec_fail"][:3]:
             run.violation("document of in-domain statements not read exactly", {"reader": reader, "document": doc,
-                                                                                  "impl": iobs, "expected_kinded": want})
+                                                                                  "line": doc, "impl": iobs,
+                                                                                  "expected_kinded": want})
+        for (reader, doc, iobs, want) in docs["no_rc"][:3]:
+            run.violation("valid document with comment lines / blank lines not read exactly (outside the document "
+                          "domain, no listed root cause)", {"reader": reader, "document": doc, "line": doc, "impl": iobs,
+                                                            "expected_kinded": want})
+        if docs["render_fail"]:
+            run.internal_errors.append("harness rendering of a comment / blank line differs from Spec.NtSyntax.r_dline "
+                                       "or its domain from Spec.NtDomCur: %r" % (docs["render_fail"][0],))
+        if docs["f9_hits"]:
+            total.rc_fail[F9] += docs["f9_hits"]
+            total.rc_example.setdefault(F9, docs["f9_example"])
     # hangs: with nt_uri_unclosed_to_eol the reader terminates on every text (C06_terminates), valid or not
     hangs = [(ct, line, iobs, mobs) for (ct, line, iobs, mobs) in total.hang_viol]
     for (ct, line, iobs, mobs) in hangs[:3]:
@@ -833,7 +929,7 @@ def run(tier, seed, replay=None):
             run.violation("the reader never returns on this document (alarm)", {"reader": reader, "document": doc,
                                                                                 "line": doc, "impl": iobs, "model": mobs})
     n_corr = len(total.corr_fail) + (len(docs["corr_fail"]) if docs else 0)
-    if not spec_fail and not (docs and docs["spec_fail"]) and not hangs and not (docs and docs["hang"]):
+    if not spec_fail and not (docs and (docs["spec_fail"] or docs["no_rc"])) and not hangs and not (docs and docs["hang"]):
         if n_corr:
             first = total.corr_fail[0] if total.corr_fail else docs["corr_fail"][0]
             run.violation("correspondence Model.NtReader vs shexer NtTriplesYielder no longer checks",
@@ -879,7 +975,12 @@ def run(tier, seed, replay=None):
         "known_finding_hits": dict(total.rc_fail),
         "known_finding_examples": {k: v for k, v in total.rc_example.items()},
         "disagreements_model_vs_impl": n_corr,
-        "documents": {k: (v if isinstance(v, int) else len(v)) for k, v in (docs or {}).items()},
+        "documents": {k: (v if isinstance(v, int) else (len(v) if isinstance(v, list) else (1 if v else 0)))
+                      for k, v in (docs or {}).items()},
+        "document_lines": {"comment_lines": COMMENT_LINES, "blank_lines": BLANK_LINES,
+                           "rule": "half of the documents hold 1..4 extra lines: comment lines (the list, or a "
+                                   "commented-out statement of the document) and blank lines; half end with a line end; "
+                                   "each document is read from a raw string and from a file"},
         "rdflib_crosschecked": total.rdflib_checked,
         "vm_compute_crosschecked": vm_n,
         "seconds": {"enumeration_wall": round(wall_enum, 1), "impl_cpu": round(total.impl_s, 1),
